@@ -6,6 +6,8 @@
 (*                 on it: it holds "successful or not")                      *)
 (*    written      the regions <<argument, "len"|"spare">> in which at least *)
 (*                 one byte differs from the snapshot taken before the call  *)
+(*                 (a difference that shows only at the re-check made after   *)
+(*                 two garbage collections at the end of the batch counts)   *)
 (*    outside      a guard byte between/around the arguments changed         *)
 (*  with keep, chain, conc ("results stay the caller's"): written also lists *)
 (*  <<"result", "len"|"spare">> when a slice returned by an earlier call of   *)
